@@ -238,14 +238,14 @@ def check(ctx, run):
     # ---------------- R3 ----------------------------------------------------
     ra = prog.fn(DET + "::reallocateMemoryAndLeakInformation")
     null_paths = []
-    for p in enumerate_paths(ra):
+    for p in enumerate_paths(ra, inline=None):
         v = p.val()
         if v.get("new_memory") is False or v.get("(NULL == new_memory)") is True:
             names = [(prog.callee_name(ra, c) or "").split("::")[-1] for c in path_calls(prog, ra, p)]
             null_paths.append(names)
     removed_before = False
     readded = False
-    for p in enumerate_paths(rm):
+    for p in enumerate_paths(rm, inline=None):     # reallocMemory's own calls: the callee's failing path is judged separately above
         names = [(prog.callee_name(rm, c) or "").split("::")[-1] for c in path_calls(prog, rm, p)]
         if "removeNode" in names and "reallocateMemoryAndLeakInformation" in names and names.index("removeNode") < names.index("reallocateMemoryAndLeakInformation"):
             removed_before = True
